@@ -2,6 +2,7 @@ import GoawkModel.Basic
 import GoawkModel.C09
 import GoawkModel.C09Digits
 import GoawkModel.C09Spec
+import GoawkModel.C09Cache
 /-!
 Line-protocol handler for property C09.
 
@@ -69,6 +70,17 @@ def handle (args : List String) : String :=
     match m, fromHex ofmt, fromHex ofs, fromHex ors, rest.mapM parseVal with
     | some m, some f, some fs, some rs, some vs => renderRes (printArgs exactGen m f fs rs vs)
     | _, _, _, _, _ => "bad-request"
+  | "seq" :: chars :: uses =>
+    let parseUse (u : String) : Option (Bytes × List Arg) :=
+      match u.splitOn "," with
+      | f :: as =>
+        match fromHex f, as.mapM parseArg with
+        | some fb, some args => some (fb, args)
+        | _, _ => none
+      | [] => none
+    match uses.mapM parseUse with
+    | some us => String.intercalate "|" ((runUses exactGen (chars == "1") [] us).map (fun r => (renderRes r).replace " " ":"))
+    | none => "bad-request"
   | ["table"] => Generated.C09Verbs.verbTableText
   | _ => "bad-request"
 
